@@ -222,7 +222,7 @@ class WebProcessorSession(BaseProcessorSession):
         try:
             if redirect_request:
                 verdict = yield from self._fetch_rule.consult_robots_txt(
-                    redirect_request)
+                    redirect_request, self._item_session.url_record)
                 reason = 'robotstxt'
             else:
                 self._item_session.request = request = self._new_initial_request(with_body=False)
